@@ -394,7 +394,9 @@ impl IoSched {
         for e in &self.events {
             h.u64(e.op as u64);
             if e.role != u16::MAX {
-                h.str(&self.roles[e.role as usize]);
+                // file names may carry a process id or a counter (temporary files): digits do not take part
+                let name: String = self.roles[e.role as usize].chars().map(|c| if c.is_ascii_digit() { '#' } else { c }).collect();
+                h.str(&name);
             }
             h.bytes(&[e.kind]);
             h.u64(e.a);
